@@ -872,3 +872,82 @@ def conn_lines(h, legacy):
         if script:
             out.append("conn %s/%d %d %s" % (h.id, p, 1 if legacy else 0, ";".join(script)))
     return out
+
+
+# ------------------------------------------------------------------ C06: uuid assets
+
+def oracle_assets(h):
+    """at every quiescent drain: every uuid asset published so far is held by every peer with the content last published"""
+    fails = []
+    cfg = peer_cfgs(h)
+    last = {}     # (kind, uuid) -> (publisher, event index)
+    for i, e in enumerate(h.events):
+        if e["ev"] == "op" and e["op"] == "asset_insert" and e.get("uuid"):
+            last[(e["kind"], e["uuid"])] = (e["peer"], i)
+        if e["ev"] == "drain" and e["quiescent"]:
+            for (kind, uuid), (pub, j) in last.items():
+                pst = last_state(h, i, pub)
+                if pst is None:
+                    continue
+                want = (pst["assets"].get(kind) or {}).get(uuid)
+                sw = {"material": "materials", "image": "materials", "mesh": "meshes", "audio": "audios"}[kind]
+                if not cfg.get(pub, {}).get(sw, False):
+                    continue
+                for p in h.peers():
+                    if p == pub or not cfg.get(p, {}).get(sw, False):
+                        continue
+                    st = last_state(h, i, p)
+                    if st is None:
+                        continue
+                    got = (st["assets"].get(kind) or {}).get(uuid)
+                    if got is None:
+                        fails.append(("C06", "a %s published by peer %d never reached peer %d" % (kind, pub, p), {"uuid": uuid[:8]}))
+                    elif got != want:
+                        fails.append(("C06", "peer %d holds a %s whose content differs from what peer %d last published under that uuid" % (p, kind, pub), {"uuid": uuid[:8]}))
+    return fails
+
+
+def asset_lines(h, count_tokens=True, skip_served=False):
+    """downloadable classes (mesh / image / audio): one model instance per uuid.  The publications are replayed on
+    the model, the model settles by fair rounds wherever the implementation drained, and what every peer holds
+    (content, own serve cache, pending debounce entries) is compared there."""
+    out = []
+    per = {}     # (kind, uuid) -> {"script": [], "ids": {hash: n}}
+    npeers = h.nclients + 1
+    for i, e in enumerate(h.events):
+        if e["ev"] == "op" and e["op"] == "asset_insert" and e.get("uuid"):
+            d = per.setdefault((e["kind"], e["uuid"]), {"script": [], "ids": {}})
+            hsh = e.get("hash")
+            if hsh is None:
+                d["bad"] = True
+                continue
+            n = d["ids"].setdefault(hsh, len(d["ids"]) + 1)
+            d["script"].append("p:%d:%d" % (e["peer"], n))
+        if e["ev"] == "drain" and e["quiescent"]:
+            for (kind, uuid), d in per.items():
+                d["script"].append("d")
+                for p in range(npeers):
+                    st = last_state(h, i, p)
+                    if st is None:
+                        d["bad"] = True
+                        continue
+                    def name(x):
+                        if x is None:
+                            return "-"
+                        return str(d["ids"].get(x, 999))
+                    content = (st["assets"].get(kind) or {}).get(uuid)
+                    served = (st.get("served", {}).get(kind) or {}).get(uuid)
+                    tokens = sum(1 for t in st["tracker"]["htokens"] if t == uuid)
+                    if kind == "material":
+                        d["script"].append("x:%d:%s:%d" % (p, name(content), tokens))
+                    else:
+                        d["script"].append("x:%d:%s:%s:%d" % (p, name(content), name(served), tokens))
+    for (kind, uuid), d in per.items():
+        if d.get("bad") or not any(t == "d" for t in d["script"]):
+            continue
+        inst = "%s/%s.%s" % (h.id, kind, uuid[:8])
+        if kind == "material":
+            out.append("mat %s %d %d %s" % (inst, 1 if count_tokens else 0, h.nclients, ";".join(d["script"])))
+        else:
+            out.append("asset %s %d %d %d %s" % (inst, 1 if count_tokens else 0, 1 if skip_served else 0, h.nclients, ";".join(d["script"])))
+    return out
